@@ -140,7 +140,8 @@ func (e *cliEnv) run(w *run.Worker, stdin string, args ...string) cliRun {
 	var so, se bytes.Buffer
 	cmd.Stdout, cmd.Stderr = &so, &se
 	cmd.Dir = e.dir
-	err := cmd.Run()
+	var err error
+	w.Timed(func() { err = cmd.Run() }) // the watchdog reports a tool that does not finish
 	r := cliRun{stdout: so.String(), stderr: se.String()}
 	if err != nil {
 		if ee, ok := err.(*exec.ExitError); ok {
